@@ -10,7 +10,8 @@ CASE_TIMEOUT = 60
 SHARD = 20
 RULE = ("25 mutable types (lists / bitlists of several limits started at chunk and subtree boundaries, vectors, "
         "bitvectors, containers, unions, nested) x random histories of valid top-level mutations (set, field set, append, "
-        "pop, bit set, union change; runs of append/pop across boundaries); after every step root and encoding of the "
+        "pop, bit set, union change; runs of append/pop across boundaries; every fourth history also mutates through "
+        "child views obtained earlier and kept while the value changes by other routes); after every step root and encoding of the "
         "view are compared with the model AND with a value freshly constructed from the view's exported content; "
         "non-trivial = at least 3 mutations; distinct by input JSON")
 
@@ -24,7 +25,12 @@ def gen_inputs(ctx):
             t = gen_type(rng, 2, big_ok=False)
             if t[0] not in COMPOSITE or type_size(t) > 9:
                 continue
-        yield gen_history(rng, t, rng.randrange(3, 28), top_only=True)
+        if i % 4 == 3:
+            # mutations that reach the value through held child views (obtained earlier, kept while the value changes
+            # by other routes): still 'the content the sequence implies'
+            yield gen_history(rng, t, rng.randrange(6, 24), p_child=0.3)
+        else:
+            yield gen_history(rng, t, rng.randrange(3, 28), top_only=True)
 
 
 def build(inp):
